@@ -49,6 +49,10 @@ CHECKS = {
         "parts": [
             {"name": "inprocess", "pkg": "interceptor", "run": "^TestVF_C13_InProcess$",
              "checks": {"quick": 5000, "thorough": 40000}, "shards": {"quick": 2, "thorough": 12}},
+            {"name": "direction", "pkg": "proxy", "run": "^TestVF_C13_Direction$",
+             "checks": {"quick": 600, "thorough": 6000}, "shards": {"quick": 1, "thorough": 4}},
+            {"name": "rejection", "pkg": "proxy", "run": "^TestVF_C13_Rejection$",
+             "checks": {"quick": 300, "thorough": 3000}, "shards": {"quick": 1, "thorough": 2}},
         ],
     },
     "C14": {
@@ -77,6 +81,38 @@ CHECKS = {
             {"name": "paths", "pkg": "interceptor", "run": "^TestVF_C16_Paths$", "rapid": False},
             {"name": "random", "pkg": "interceptor", "run": "^TestVF_C16_Random$",
              "checks": {"quick": 4000, "thorough": 40000}, "shards": {"quick": 1, "thorough": 8}},
+            {"name": "wiring", "pkg": "proxy", "run": "^TestVF_C16_Wiring$",
+             "checks": {"quick": 800, "thorough": 8000}, "shards": {"quick": 1, "thorough": 4}},
+        ],
+    },
+    "C07": {
+        "level_text": "Arithmetic and mapping checked exhaustively for all count pairs 1..64x1..64 and all power-of-two pairs up to 16384 (every LCM shard id swept when LCM <= 2^16 quick / 2^20 thorough), randomly for composite pairs up to 16384; the real handleStream LCM branch is driven with a capturing fake client; Temporal's own hash partitioning is the ownership oracle; a really assembled ClusterConnection checks both servers report the LCM and map with the serving side's count.",
+        "technique": "bounded exhaustive enumeration + random pairs (rapid) against number-theoretic and hash-partitioning oracles; loopback wiring test",
+        "level": "exploration",
+        "exhaustive_claim": False,
+        "assumptions": [
+            "supported range = shard counts 1..16384 (Temporal's limit); LCM then fits int32",
+            "ownership specification = go.temporal.io/server/common.WorkflowIDToHistoryShard",
+        ],
+        "parts": [
+            {"name": "mapping", "pkg": "proxy", "run": "^TestVF_C07_Mapping$",
+             "checks": {"quick": 400, "thorough": 5000}, "shards": {"quick": 4, "thorough": 16}},
+            {"name": "wiring", "pkg": "proxy", "run": "^TestVF_C07_Wiring$",
+             "checks": {"quick": 40, "thorough": 400}},
+        ],
+    },
+    "C15": {
+        "level_text": "Every method of both services invoked by full name against ClusterConnections really assembled by NewClusterConnection (TCP and mux transports, recording fake clusters) under generated admin allow-lists, with and without the bypass header, from both sides; plus the exhaustive in-process product (all methods x all singleton / near-miss / empty / full lists) through the real AccessControlInterceptor.",
+        "technique": "generated configurations (rapid) x exhaustive method set from the service descriptors, truth-table oracle + recording fake cluster",
+        "level": "exploration",
+        "assumptions": [
+            "real sockets on loopback; only timing-independent outcomes are asserted (status code, what the fake cluster recorded)",
+            "through a mux transport the status code of a refused stream is not observable one proxy hop away (the relaying forwarder ends the stream cleanly); 'the local cluster sees no call' is asserted in every case",
+        ],
+        "parts": [
+            {"name": "inprocess", "pkg": "interceptor", "run": "^TestVF_C15_InProcess$", "rapid": False},
+            {"name": "wiring", "pkg": "proxy", "run": "^TestVF_C15_Wiring$",
+             "checks": {"quick": 14, "thorough": 150}, "shards": {"quick": 1, "thorough": 4}},
         ],
     },
 }
